@@ -40,14 +40,16 @@ type node struct {
 type openSet struct {
 	items *list.List
 
-	// done contains a map of targets we've already processed.
-	done map[core.BuildLabel]struct{}
+	// done contains a map of targets we've already queued, with the lowest depth we've queued them at.
+	done map[core.BuildLabel]int
 }
 
 // Push implements pushing a node onto the queue of nodes to process, deduplicating nodes we've seen before.
+// A node is queued again if we find a shorter route to it (the queue isn't strictly ordered by depth because
+// of the zero-cost edges), otherwise anything beyond it could be cut off by the depth budget.
 func (os *openSet) Push(n *node) {
-	if _, present := os.done[n.target.Label]; !present {
-		os.done[n.target.Label] = struct{}{}
+	if depth, present := os.done[n.target.Label]; !present || n.depth < depth {
+		os.done[n.target.Label] = n.depth
 		os.items.PushBack(n)
 	}
 }
@@ -99,7 +101,7 @@ func newRevdeps(graph *core.BuildGraph, hidden, followSubincludes, includeSubrep
 		followSubincludes: followSubincludes,
 		os: &openSet{
 			items: list.New(),
-			done:  map[core.BuildLabel]struct{}{},
+			done:  map[core.BuildLabel]int{},
 		},
 		hidden:   hidden,
 		maxDepth: maxDepth,
